@@ -15,6 +15,10 @@ CLAIMED['C01'] = dict(
    text='Machine-checked theorems about the _run_sync/_run_async/_run_iter wrappers regenerated from deal/_runtime/_contracts.py and _validators.py on every run: for every registry, validator list (arbitrary user code), arguments, world and fuel, a non-accepting precondition ends the call with its error before anything after the pre block runs and restores the switch; if all accept, execution continues with the body part with the caller arguments. Binding of the `_` container and validator forms are tied by the correspondence check (random signatures x validator forms x bindings x kinds, model vs real deal) and an independent monitor using CPython itself as binding oracle.',
    design_ref='DESIGN.md 4.1', note=GENERIC_NOTE,
    technique='Coq proof over wrappers regenerated from source + differential correspondence + monitor')
+CLAIMED['C02'] = dict(
+   text='Machine-checked theorems about the post-validation block of the wrappers regenerated from _contracts.py: for every registry, value, arguments, world and fuel, the value is returned / yielded iff every post accepts it and every ensure accepts it with the original arguments (reference run_posts), otherwise the first failure is raised; the switch is restored; a rejected yielded value ends the wrapper loop so the inner generator is never resumed. Tied to the code by regeneration, by differential execution of random post/ensure stacks, result values and yield sequences, and by an independent monitor.',
+   design_ref='DESIGN.md 4.2', note=GENERIC_NOTE,
+   technique='Coq proof over wrappers regenerated from source + differential correspondence + monitor')
 UNCLAIMED_REASON = 'not claimed yet: the Coq model and check for this property are still under construction in this round (no technique switch intended)'
 checks, na = [], []
 for p in props:
